@@ -350,3 +350,124 @@ def _mut_report_twice(fn):
                     cnt += 1
                     return cnt
     return cnt
+
+
+@unit(name='transport.addNode', relpath=TRMOD, qual=['%s.addNode' % CLS], props=['C14', 'C10'],
+      doc='O14.2 (add): the node is known afterwards (node set and address map); a connection object is created exactly when this side is the '
+          'one that dials (O14.3), bound to that node, with the transport\'s callbacks installed',
+      canaries=[('address-not-registered', lambda mod: mutate_function(mod, '%s.addNode' % CLS, _mut_no_addr), ['O14.2.add.address-registered'])])
+def tr_add_node(ctx):
+    tr, conns, members = mk_transport(ctx)
+    idx = FreshInt('node')
+    ctx.assume(And(idx >= 0, idx < U))
+    ctx.track('node', idx)
+    node = NodeV(idx)
+    # a node that is being added is not a member yet
+    ctx.assume(And(*[Implies(idx == i, Not(members[i])) for i in range(U)]))
+    made = []
+
+    def new_conn(I, args, kw):
+        c = I.ctx.alloc(PObj('TcpConnection', {'state': DISCONNECTED, 'name': 'new', 'encryptor': None}))
+        made.append(c)
+        return c
+    mod = source.load(TRMOD)
+    fn, ci = mod.find('%s.addNode' % CLS)
+    ext = {'functools.partial': partial_ext, 'TcpConnection': new_conn, 'tcp_connection.TcpConnection': new_conn}
+    I = Interp(ctx, registry=REG, externals=ext, inline=INL, hooks={'call:cb': cb_hook, 'transport': tr, 'new:TcpConnection': new_conn, 'modules': [TRMOD],
+                                                                  'bases': {CLS: ('Transport',)}})
+    try:
+        I.call_funcdef(fn, mod, CLS, tr, [node], {}, None, '%s.addNode' % CLS)
+        outcome = 'ok'
+    except PyExc as e:
+        outcome = e.typ
+    ctx.prove(outcome == 'ok', 'C14:O14.2.add.no-exception', info=outcome)
+    if outcome != 'ok':
+        return
+    ctx.prove(Or(*[And(Eq(idx, i), b) for i, b in enumerate(F_(ctx, tr, '_nodes').bits)]), 'C14+C10:O14.2.add.node-registered')
+    ctx.prove(Or(*[And(p, I.equals(k, NodeId(idx)), I.equals(v, node)) for p, k, v in F_(ctx, tr, '_nodeAddrToNode').entries]), 'C14+C10:O14.2.add.address-registered')
+    dials = U > idx     # own index is U: O14.3
+    bound = [(p, k, v) for p, k, v in F_(ctx, tr, '_connections').entries if made and isinstance(v, Ref) and v.addr == made[0].addr]
+    ctx.prove((len(made) == 1) if True else False, 'C14:O14.3.add.connection-created-by-the-dialling-side')
+    if made:
+        ctx.prove(len(bound) == 1 and I.equals(bound[0][1], node) is not False, 'C14+C10:O14.2.add.connection-bound-to-that-node')
+        mcb = ctx.cell(made[0]).fields.get('msgcb')
+        ctx.prove(isinstance(mcb, Partial) and mcb.f.name == '_onMessageReceived' and I.equals(mcb.args[0], node) is not False, 'C14+C10:O14.1.messages-attributed-to-that-node')
+
+
+def _mut_no_addr(fn):
+    cnt = 0
+    for s in list(fn.body):
+        if isinstance(s, ast.Assign) and isinstance(s.targets[0], ast.Subscript) and isinstance(s.targets[0].value, ast.Attribute) and s.targets[0].value.attr == '_nodeAddrToNode':
+            fn.body.remove(s)
+            cnt += 1
+    return cnt
+
+
+@unit(name='transport.outgoingConnected', relpath=TRMOD, qual=['%s._onOutgoingConnected' % CLS, '%s._sendSelfAddress' % CLS], props=['C14', 'C18'],
+      cases=[dict(readonly_self=False), dict(readonly_self=True)],
+      doc='O14.1 (dialling side): the first message on an outgoing connection is this node\'s own address, or "readonly" for a node without an '
+          'address, and the peer is reported connected exactly once',
+      canaries=[('announce-wrong', lambda mod: mutate_function(mod, '%s._sendSelfAddress' % CLS, _mut_swap_announce), ['O14.1.first-message-names-this-node'])])
+def tr_outgoing_connected(ctx, readonly_self):
+    tr, conns, members = mk_transport(ctx, readonly_self)
+    ctx.setcell(ctx.cell(tr).fields['_connections'], KVDict([(True, NodeV(0), conns[0])]))
+    outcome, r, I = run_tr(ctx, tr, '_onOutgoingConnected', [conns[0]])
+    ctx.prove(outcome == 'ok', 'C14:O14.1.outgoing.no-exception', info=outcome)
+    sends = [o for o in ctx.glist('conn_ops') if o[0] == 'send']
+    ctx.prove(len(sends) == 1 and sends[0][1] == 'conn0', 'C14:O14.1.outgoing.one-announcement')
+    if sends:
+        m = sends[0][2]
+        ctx.prove((m == 'readonly') if readonly_self else (isinstance(m, NodeId) and Eq(m.idx, U) is True), 'C14+C18:O14.1.first-message-names-this-node', info=repr(m))
+    cbs = [c for c in ctx.glist('cb') if c[0] == 'cb:onNodeConnected']
+    ctx.prove(len(cbs) == 1 and Eq(cbs[0][1][0].idx, 0) is True, 'C14:O14.1.outgoing.peer-reported-connected-once')
+
+
+def _mut_swap_announce(fn):
+    cnt = 0
+    for n in ast.walk(fn):
+        if isinstance(n, ast.If):
+            n.body, n.orelse = n.orelse, n.body
+            cnt += 1
+    return cnt
+
+
+@unit(name='transport.connectIfNecessary', relpath=TRMOD, qual=['%s._connectIfNecessarySingle' % CLS], props=['C14'],
+      doc='O14.5 (reconnect rule): no dial while the existing connection is not DISCONNECTED; only the dialling side dials; at most one attempt '
+          'per connectionRetryTime',
+      canaries=[('ignore-live-connection', lambda mod: mutate_function(mod, '%s._connectIfNecessarySingle' % CLS, _mut_ignore_live), ['O14.5.no-second-connection-while-one-is-live'])])
+def tr_connect_if_necessary(ctx):
+    tr, conns, members = mk_transport(ctx)
+    ctx.setcell(ctx.cell(tr).fields['_connections'], KVDict([(True, NodeV(0), conns[0])]))
+    last = FreshReal('lastAttempt')
+    has_last = FreshBool('hasLastAttempt')
+    ctx.setcell(ctx.cell(tr).fields['_lastConnectAttempt'], KVDict([(has_last, NodeV(0), last)]))
+    now = FreshReal('now')
+    st0 = ctx.cell(conns[0]).fields['state']
+    mod = source.load(TRMOD)
+    fn, ci = mod.find('%s._connectIfNecessarySingle' % CLS)
+    ext = {'functools.partial': partial_ext, 'monotonicTime': lambda I_, a, k: now, 'monotonic.monotonic': lambda I_, a, k: now}
+    I = Interp(ctx, registry=REG, externals=ext, inline=INL, hooks={'call:cb': cb_hook, 'transport': tr, 'modules': [TRMOD], 'bases': {CLS: ('Transport',)}})
+    node = NodeV(0)
+    try:
+        r = I.call_funcdef(fn, mod, CLS, tr, [node], {}, None, '%s._connectIfNecessarySingle' % CLS)
+        outcome = 'ok'
+    except PyExc as e:
+        outcome, r = e.typ, None
+    ctx.prove(outcome == 'ok', 'C14:O14.5.connect.no-exception', info=outcome)
+    dials = [o for o in ctx.glist('conn_ops') if o[0] == 'connect']
+    retry = ctx.cell(ctx.cell(ctx.cell(tr).fields['_syncObj']).fields['conf']).fields['connectionRetryTime']
+    ctx.prove(len(dials) <= 1, 'C14:O14.5.at-most-one-dial')
+    if dials:
+        ctx.prove(st0 == DISCONNECTED, 'C14:O14.5.no-second-connection-while-one-is-live')
+        ctx.prove(Implies(has_last, now - last >= retry), 'C14:O14.5.reconnect-throttled')
+    else:
+        ctx.prove(Implies(st0 != DISCONNECTED, I.truth_expr(r)), 'C14:O14.5.live-connection-reported')
+
+
+def _mut_ignore_live(fn):
+    cnt = 0
+    for s in list(fn.body):
+        if isinstance(s, ast.If) and any(isinstance(x, ast.Attribute) and x.attr == 'DISCONNECTED' for x in ast.walk(s.test)):
+            fn.body.remove(s)
+            cnt += 1
+    return cnt
